@@ -116,6 +116,7 @@ class Recorder:
         self._tl = threading.local()
         self.file_ids = {}         # relative value-file name -> id (first appearance)
         self.on_action = None      # hook(kind, detail) called BEFORE the action runs
+        self.on_post = None        # hook(kind, detail) called AFTER a COMMIT / ROLLBACK returned (scheduler only)
         self.enabled = True
 
     @property
@@ -197,6 +198,10 @@ class ConnProxy:
             rec.add(sid + '!')
             raise
         rec.add(sid)
+        if rec.on_post is not None and sid in ('COMMIT', 'ROLLBACK'):
+            # the write lock has just been released: another client may get in before this
+            # one runs its next line of Python
+            rec.on_post('post', sid)
         if sid == 'pageCount':
             rec.page_counts.append(rows[0][0])
         return _Cursor(rows, cur.rowcount)
